@@ -684,6 +684,58 @@ func (w *World) Of(t ElemType, items []Value) Value {
 	return a
 }
 
+// createFromCustomCtor is TypedArrayCreateFromCtor with a user constructor that logs ("o<id>", len) and returns the view `ret`.
+func (w *World) createFromCustomCtor(id int, ret *TypedArray, n int) *TypedArray {
+	w.log("o"+itoa(id), float64(n))
+	w.validate(ret)
+	if ret.Length < n {
+		throw("TypeError")
+	}
+	return ret
+}
+
+// OfCtor: %TypedArray%.of.call(C, ...items) (23.2.2.2) where C returns the existing view ret.
+func (w *World) OfCtor(id int, ret *TypedArray, items []Value) Value {
+	a := w.createFromCustomCtor(id, ret, len(items))
+	for k, v := range items {
+		w.set(a, k, v)
+	}
+	return a
+}
+
+// FromCtor: %TypedArray%.from.call(C, source [, mapfn]) (23.2.2.1) with an Array (iterated) or array-like source.
+func (w *World) FromCtor(id int, ret *TypedArray, src *Array, mapfn *Callback) Value {
+	prev := w.CurSrc
+	w.CurSrc = src
+	defer func() { w.CurSrc = prev }()
+	var vals []Value
+	var a *TypedArray
+	n := 0
+	if src.IsArray {
+		for k := range src.Elems {
+			vals = append(vals, arrGet(src, k)) // IteratorToList: no user code runs for an ordinary Array
+		}
+		n = len(vals)
+		a = w.createFromCustomCtor(id, ret, n)
+	} else {
+		n = w.ToLength(src.LengthVal)
+		a = w.createFromCustomCtor(id, ret, n)
+	}
+	for k := 0; k < n; k++ {
+		var kv Value
+		if src.IsArray {
+			kv = vals[k]
+		} else {
+			kv = arrGet(src, k)
+		}
+		if mapfn != nil {
+			kv = w.call(mapfn, kv, float64(k))
+		}
+		w.set(a, k, kv)
+	}
+	return a
+}
+
 // ---- integer-indexed exotic object internal methods (10.4.5) ----
 
 // KeyClass classifies a property key string: "index" (canonical numeric string; Num holds the value) or "plain".
